@@ -76,3 +76,16 @@ func AnnexB(r *fw.Rand, units [][]byte) ([]byte, []int) {
 	}
 	return out, sc
 }
+
+// NALOK reports whether u can stand in an Annex-B stream as one unit: no start-code emulation (00 00 0x, x <= 2) and no trailing 00.
+func NALOK(u []byte) bool {
+	if len(u) == 0 || u[len(u)-1] == 0 {
+		return false
+	}
+	for i := 2; i < len(u); i++ {
+		if u[i-2] == 0 && u[i-1] == 0 && u[i] < 3 {
+			return false
+		}
+	}
+	return true
+}
